@@ -42,7 +42,7 @@ func (x *X) active(cl *Clause) bool {
 		return true
 	}
 	for _, p := range cl.Props {
-		if p == x.prop || x.prop == "" {
+		if p == x.prop || x.prop == "" || contains(x.also, p) {
 			return true
 		}
 	}
@@ -67,7 +67,8 @@ func (w *World) VerifyFunc(fn *ssa.Function, mode *Mode, prop string) (x *X, err
 	B := x.B
 	st := &State{heap: map[string]*Term{}, cells: map[int]Value{}, pgen: map[string]int{}}
 	ct := w.ContractFor(fn)
-	if ct != nil && ct.NoWrap && (len(ct.NoWrapProps) == 0 || prop == "" || contains(ct.NoWrapProps, prop)) {
+	x.also = w.Also[prop]
+	if ct != nil && ct.NoWrap && (len(ct.NoWrapProps) == 0 || prop == "" || contains(ct.NoWrapProps, prop) || overlaps(ct.NoWrapProps, x.also)) {
 		x.noWrap = true
 	}
 	nullable := map[string]bool{}
@@ -222,6 +223,18 @@ func (w *World) VerifyFunc(fn *ssa.Function, mode *Mode, prop string) (x *X, err
 		}
 	}
 	x.retPC = rpc
+	if ct != nil && mode.Functional {
+		// a call-site assertion that matched no call proves nothing: report it
+		for _, cl := range ct.AtCalls {
+			if x.active(cl) && x.atHits[cl] == 0 {
+				site := cl.Names[0]
+				if cl.Loop != 0 {
+					site = fmt.Sprintf("%s@%d", site, cl.Loop)
+				}
+				x.noteStale(fmt.Sprintf("%s: at %s: assert [%s] matched no call in the function", x.root, site, cl.Label))
+			}
+		}
+	}
 	x.splitConjuncts()
 	if mode.Functional && ct != nil && (len(ct.Ensures) > 0 || len(ct.LoopInv) > 0 || len(ct.AtCalls) > 0) {
 		// vacuity guard: every return statement must be reachable under the contract's
@@ -567,7 +580,17 @@ type RootSpec struct {
 	Kinds []string `json:"kinds,omitempty"`
 }
 
+func overlaps(a, b []string) bool {
+	for _, s := range a {
+		if contains(b, s) {
+			return true
+		}
+	}
+	return false
+}
+
 type CheckSpec struct {
+	Also     []string   `json:"also,omitempty"` // clauses tagged for these properties are active in this check too
 	Deferred []string   `json:"deferred,omitempty"` // analysed by no root of this property, but never inlined
 	Property string     `json:"property"`
 	Roots    []RootSpec `json:"roots"`
@@ -706,6 +729,9 @@ func loadWorldWithSpecs() (*World, error) {
 	w.collectInterestingTypes()
 	if checks, err := loadChecks(); err == nil {
 		for _, c := range checks {
+			if len(c.Also) > 0 {
+				w.Also[c.Property] = c.Also
+			}
 			for _, r := range c.Roots {
 				w.NoInline[r.Func] = true
 			}
